@@ -118,8 +118,61 @@ def run(ctx):
     ctx.trusted += ["clvmr serialisation / back-references / interning", "Allocator::new_number is canonical"]
     ctx.assumptions += ["N: equality of conditions and of concrete costs between the two runs"]
     c08_1(ctx)
+    c08_dialect(ctx)
     c08_2(ctx)
+    c08_triples(ctx)
     c08_3(ctx)
+
+
+def c08_dialect(ctx):
+    """both paths run puzzles under the CLVM dialect selected by the caller's flags, unmodified"""
+    R = "C08.1"
+    fb = ctx.fb
+    got = {}
+    for nm, path in (("run_spendbundle", CC + "spendbundle_conditions::run_spendbundle"), ("run_block_generator2", CC + "run_block_generator::run_block_generator2")):
+        f = _fn(fb, path)
+        if not f:
+            return ctx.missing(R, "dialect", nm + " not found")
+        b = Body(f, fb)
+        got[nm] = [str(apnf.N(strip_all(b.operand_term(t["args"][0])))) for bi, n, t in b.calls() if n.endswith("ChiaDialect::new")]
+    want = [str(("ConsensusFlags::to_clvm_flags", "flags"))]
+    ctx.ob(R, "dialect", got["run_spendbundle"] == want and got["run_block_generator2"] == want,
+           "both paths build ChiaDialect::new(flags.to_clvm_flags()) from the caller's flags: a puzzle runs under the same CLVM rules in the mempool and in the block",
+           found=got)
+
+
+def c08_triples(ctx):
+    """wherever a (coin, puzzle, solution) triple is assembled from a CoinSpend the puzzle reveal is second and the solution third
+    (both are byte strings: a swap compiles)"""
+    R = "C08.2"
+    fb = ctx.fb
+    n = 0
+    bad = []
+    for p, f in fb.fns.items():
+        if not (p.startswith("chia_consensus::") or p.startswith("chia_rs::") or p.startswith("chia_protocol::")):
+            continue
+        if not any("puzzle_reveal" in str(c.get("args", "")) or True for c in f.e.get("calls", [])[:1]) and False:
+            continue
+        try:
+            body = f.body
+        except Exception:
+            continue
+        if "puzzle_reveal" not in str(body):
+            continue
+        b = Body(f, fb)
+        for bi, blk in enumerate(b.blocks):
+            if bi not in b.reach:
+                continue
+            for st in blk["s"]:
+                if st["k"] == "assign" and st["rv"]["k"] == "agg" and st["rv"].get("ak") == "tuple" and len(st["rv"]["ops"]) == 3:
+                    ops = [str(apnf.N(strip_all(b.operand_term(o)))) for o in st["rv"]["ops"]]
+                    if any("puzzle_reveal" in o for o in ops) and any("'.solution'" in o for o in ops):
+                        n += 1
+                        ctx.touched(b.path)
+                        if not ("puzzle_reveal" in ops[1] and "'.solution'" not in ops[1] and "'.solution'" in ops[2] and "puzzle_reveal" not in ops[2] and "'.coin'" in ops[0]):
+                            bad.append("%s: %s" % (p, [o[:60] for o in ops]))
+    ctx.ob(R, "triple-order", not bad, "every (coin, puzzle_reveal, solution) triple built from a CoinSpend keeps that order (%d sites)" % n, found=bad[:3] or None)
+    ctx.floor(R, "spend-triple construction sites", n, 2)
 
 
 def c08_1(ctx):
